@@ -14,15 +14,36 @@ from __future__ import annotations
 import functools
 import sys
 
-COUNT = {"scribbled": 0, "classes": 0}
+COUNT = {"scribbled": 0, "classes": 0, "handed_out_and_watched": 0, "watched_buffers_changed": 0}
+WATCH = []            # (buffer object handed to a harness-level caller as it is, snapshot, class name)
+CHANGED = []          # class names whose handed-out buffer changed while the caller still held it
+_ROOT = None
 _INSTALLED = False
 EDGE = 48
+
+
+def _check_watched():
+    for buf, snap, name in WATCH:
+        if bytes(buf) != snap:
+            COUNT["watched_buffers_changed"] += 1
+            if len(CHANGED) < 8:
+                CHANGED.append(name)
+    del WATCH[:]
 
 
 def _wrap(orig):
     @functools.wraps(orig)
     def pack(self, *a, **k):
+        # a caller outside the library (the workload) alternately gets the very buffer the library produced and goes on holding
+        # it while other packets are packed (it must not change under the caller's hands), or a copy while the original is scribbled
+        outer = not sys._getframe(1).f_code.co_filename.startswith(_ROOT) if _ROOT else False
+        if outer and WATCH and len(WATCH) >= 4:
+            _check_watched()
         out = orig(self, *a, **k)
+        if outer and type(out) is bytearray and (COUNT["scribbled"] + COUNT["handed_out_and_watched"]) % 3 == 2:
+            WATCH.append((out, bytes(out), type(self).__name__))
+            COUNT["handed_out_and_watched"] += 1
+            return out
         if type(out) is bytearray:
             cp = bytearray(out)
             n = len(out)
@@ -43,7 +64,10 @@ def _wrap(orig):
 
 def install():
     """Wrap ``pack`` of every class defined in an already imported spacepackets module (idempotent)."""
-    global _INSTALLED
+    global _INSTALLED, _ROOT
+    import os
+    from spverif.core import repo as repo_mod
+    _ROOT = os.path.abspath(repo_mod.REPO).rstrip("/") + "/"
     import importlib
     import pkgutil
     import spacepackets
@@ -74,5 +98,11 @@ def report(ctx):
     from spverif.san import argform
     if argform.COUNT["entry_points"]:
         argform.report(ctx)
+    _check_watched()
     ctx.extra["hostile_caller_scribbled_pack_results"] = COUNT["scribbled"]
+    ctx.extra["hostile_caller_buffers_held_across_later_packs"] = COUNT["handed_out_and_watched"]
+    if COUNT["handed_out_and_watched"]:
+        ctx.ev("hostile_caller.returned_buffer_stable", COUNT["handed_out_and_watched"])
+    for name in sorted(set(CHANGED)):
+        ctx.fail("hostile_caller.returned_buffer_stable", "buffer_returned_by_pack_changed_while_the_caller_held_it", name, None, changed=COUNT["watched_buffers_changed"])
     ctx.extra["hostile_caller_wrapped_classes"] = COUNT["classes"]
